@@ -31,10 +31,6 @@ def unit():
     for n in (2, 4, 7):
         hs.append(Harness(f"decode_short_buffer_{n}", ["C04"], complete=False, bound=f"string length == {n}", timeout=300,
                           functions=[f"{FILE}::decode"], desc="decode into a too-short buffer is Err"))
-    for nm, b in [("sweep_0_64", "0..=64"), ("sweep_180_200", "180..=200"), ("sweep_372_392", "372..=392"), ("sweep_756_780", "756..=780"), ("sweep_1524_1548", "1524..=1548"), ("sweep_3060_3084", "3060..=3084")]:
-        hs.append(Harness(nm, ["C09", "C01", "C04"], complete=False, timeout=1800, tier="quick" if nm in ("sweep_0_64", "sweep_756_780") else "thorough",
-                          bound=f"BOUNDED STAND-IN: one concrete content, every length in {b} (boundaries of 256/512/1024/2048/4096-byte batching)",
-                          functions=[f"{FILE}::write_to_fmt", f"{FILE}::decode_vec"], desc="encode == spec and decode(encode) == id at long lengths, concrete content"))
     hs.append(Harness("decode_sound_7_modular", ["C09"], complete=False, bound="string length == 7", timeout=900,
                       functions=[f"{FILE}::decode_inner"], desc="whole-string statement against the block contracts only (stub_verified)"))
     hs.append(Harness("canary_padding_accepted", ["C09", "C04"], expect="fail", timeout=300, desc="vacuity canary: false claim must fail"))
